@@ -20,6 +20,7 @@ import (
 	"github.com/go-git/go-git/v6/plumbing/format/idxfile"
 	"github.com/go-git/go-git/v6/plumbing/format/objfile"
 	"github.com/go-git/go-git/v6/plumbing/format/packfile"
+	packutil "github.com/go-git/go-git/v6/plumbing/format/packfile/util"
 	"github.com/go-git/go-git/v6/plumbing/hash"
 	"github.com/go-git/go-git/v6/plumbing/storer"
 	"github.com/go-git/go-git/v6/storage/filesystem/dotgit"
@@ -550,7 +551,10 @@ func (s *ObjectStorage) HasEncodedObject(h plumbing.Hash) (err error) {
 	// in loose.
 	if _, statErr := s.dir.ObjectStat(h); statErr == nil {
 		return nil
-	} else if !os.IsNotExist(statErr) {
+	} else if !os.IsNotExist(statErr) && !errors.Is(statErr, plumbing.ErrObjectNotFound) {
+		// (with ExclusiveAccess the cached object list answers
+		// ErrObjectNotFound instead of a not-exist error; both mean
+		// "not loose here", and the alternates still have to be asked)
 		return statErr
 	}
 	if idxErr != nil {
@@ -701,6 +705,13 @@ func (s *ObjectStorage) DeltaObject(t plumbing.ObjectType, h plumbing.Hash) (plu
 		obj, err = s.getFromPackfile(h, true)
 	}
 
+	// Same fallback as EncodedObject: the object may live in an alternate.
+	if errors.Is(err, plumbing.ErrObjectNotFound) {
+		obj, err = findInAlternates(s, func(alt *ObjectStorage) (plumbing.EncodedObject, error) {
+			return alt.DeltaObject(plumbing.AnyObject, h)
+		})
+	}
+
 	if err != nil {
 		return nil, err
 	}
@@ -842,7 +853,27 @@ func (s *ObjectStorage) decodeDeltaObjectAt(
 		return nil, err
 	}
 
-	return newDeltaObject(obj, hash, base, header.Size), nil
+	// header.Size is the length of the delta instruction stream; the size
+	// of the object the delta produces is the second varint of that stream.
+	dr, err := obj.Reader()
+	if err != nil {
+		return nil, err
+	}
+	deltaBytes, err := io.ReadAll(dr)
+	_ = dr.Close()
+	if err != nil {
+		return nil, err
+	}
+	_, rest, err := packutil.DecodeLEB128(deltaBytes)
+	if err != nil {
+		return nil, err
+	}
+	actualSize, _, err := packutil.DecodeLEB128(rest)
+	if err != nil {
+		return nil, err
+	}
+
+	return newDeltaObject(obj, hash, base, int64(actualSize)), nil
 }
 
 // findObjectInPackfile locates h across the storage's packs and
